@@ -13,9 +13,9 @@ cp $DEMO $WT/seed_demo.py
 # (some demos assert that circus is imported from the author's own worktree)
 sed -i "/assert circus.__file__.startswith('\/tmp\/seed/d" $WT/seed_demo.py
 cd $WT
-echo "== demo on the unchanged tree"; PYTHONPATH=$WT timeout 300 /venv/bin/python seed_demo.py > /tmp/seedchk_clean.log 2>&1; echo "exit $?"; tail -2 /tmp/seedchk_clean.log
+echo "== demo on the unchanged tree"; PYTHONPATH=$WT timeout 300 /venv/bin/python seed_demo.py > $WT.clean.log 2>&1; echo "exit $?"; tail -2 $WT.clean.log
 git apply $PATCH || { echo "PATCH DOES NOT APPLY"; git -C /repo worktree remove --force $WT; exit 3; }
-echo "== demo with the change"; PYTHONPATH=$WT timeout 300 /venv/bin/python seed_demo.py > /tmp/seedchk_patched.log 2>&1; echo "exit $?"; tail -2 /tmp/seedchk_patched.log
+echo "== demo with the change"; PYTHONPATH=$WT timeout 300 /venv/bin/python seed_demo.py > $WT.patched.log 2>&1; echo "exit $?"; tail -2 $WT.patched.log
 cd /verif
 EV=$(mktemp -d /tmp/seedev.XXXXXX)
 for p in $PROPS; do
@@ -23,4 +23,4 @@ for p in $PROPS; do
     | grep -E "^C[0-9]+ |oracle=|HARNESS" | cut -c1-260 | sort | uniq -c | sort -rn | head -8
 done
 rm -rf $EV
-git -C /repo worktree remove --force $WT
+git -C /repo worktree remove --force $WT; rm -f $WT.clean.log $WT.patched.log
